@@ -165,7 +165,7 @@ UNIT = {
                       ("X14", r"(?://[^\n]*\n\s*)?lib_instances: HashMap<LibraryName, Library<R>>,", "", 0, "S"),
                       ("X14", r"_marker: PhantomData<R>,", "_marker: PhantomData<&'a R>,", 1)]},
         {"kind": "impl", "file": I, "impl": r"^impl<'a, R: RealNumberInternalTrait> Interpreter<'a, R>$",
-         "methods": {"eval_library_definition": {"props": ["C13"],
+         "methods": {"eval_library_definition": {"props": ["C13", "C07"],
              # rule B1: the locals the ghost text (and two rewrites) mention are read from the code
              "bind": {"EXPORTS": (r"let mut (\w+) = Vec::new\(\);", "final_exports"), "DEFS": (r"let mut (\w+) = HashMap::new\(\);", "definitions"),
                       "ENV": (r"let (\w+) = Rc::new\(Environment::new\(\)\);", "lib_env")},
